@@ -126,8 +126,9 @@ static Str fixHost(const Str& name, const Str& value, int port)
 {
 	if (name == "Location") {
 		char b[48];
-		snprintf(b, sizeof b, "http://127.0.0.1:%d", port);
-		if (value.compare(0, strlen(b), b) == 0) return "http://127.0.0.1:0" + value.substr(strlen(b));
+		snprintf(b, sizeof b, "127.0.0.1:%d", port);
+		size_t k = value.find(b);
+		if (k != Str::npos) return value.substr(0, k) + "127.0.0.1:0" + value.substr(k + strlen(b));
 		return value;
 	}
 	if (name != "Host") return value;
@@ -184,7 +185,8 @@ struct Plan {
 	int code;
 	Hdrs headers;
 	char kind;              // n b t j f s r
-	Str loc;                // r: target that is not redirected
+	Str loc;                // r, R: target that is not redirected
+	Str rel;                // R: the Location text
 	Str body;               // bytes / json text / file content
 	Str ext;                // file extension
 	std::vector<size_t> parts; // stream part sizes
@@ -213,6 +215,13 @@ static bool planOf(const Toks& t, size_t& i, Plan& p)
 	if (k == "r") {
 		if (i + 1 >= t.size()) return false;
 		p.loc = unhex(t[i++]);
+		return bodyOf(t[i++], p.body);
+	}
+	if (k == "R") { // R <target that answers 200> <Location text sent verbatim, '-' = none, '@' = this server's authority> <body>
+		if (i + 2 >= t.size()) return false;
+		p.loc = unhex(t[i++]);
+		p.rel = t[i] == "-" ? Str() : unhex(t[i]);
+		i++;
 		return bodyOf(t[i++], p.body);
 	}
 	if (k == "s" || k == "S") { // streamed parts: sizes a,b,c (cyclic until the body is used up); S = no final chunk
@@ -344,6 +353,19 @@ public:
 		case 'r':
 			if (Z(q.resource()) == p.loc) { r.setCode(200); r.put(ByteArray((const byte*)p.body.data(), (int)p.body.size())); }
 			else r.setHeader("Location", String::f("http://127.0.0.1:%d", thePort) + S(p.loc));
+			break;
+		case 'R':
+			if (Z(q.resource()) == p.loc) { r.setCode(200); r.put(ByteArray((const byte*)p.body.data(), (int)p.body.size())); }
+			else {
+				if (!p.rel.empty()) {
+					Str l;
+					char au[32];
+					snprintf(au, sizeof au, "127.0.0.1:%d", thePort);
+					for (size_t c = 0; c < p.rel.size(); c++) { if (p.rel[c] == '@') l += au; else l += p.rel[c]; }
+					r.setHeader("Location", S(l));
+				}
+				r.put(String("moved"));
+			}
 			break;
 		case 's': {
 			r.setHeader("Transfer-Encoding", "chunked");
@@ -581,7 +603,10 @@ static Str frameStream(const Str& head, const Str& body, const Str& fr)
 	if (fr.compare(0, 2, "ch") != 0) return head + body;
 	Str spec = fr.substr(2);
 	bool upper = false, ext = false, noend = false;
-	while (!spec.empty() && (spec[spec.size() - 1] == 'u' || spec[spec.size() - 1] == 'x' || spec[spec.size() - 1] == 'z')) {
+	int pad = 0; // p: sizes zero-padded to 8 digits (accepted), q: to 9 digits (refused by the reader)
+	while (!spec.empty() && strchr("uxzpq", spec[spec.size() - 1])) {
+		if (spec[spec.size() - 1] == 'p') pad = 8;
+		if (spec[spec.size() - 1] == 'q') pad = 9;
 		if (spec[spec.size() - 1] == 'u') upper = true;
 		if (spec[spec.size() - 1] == 'x') ext = true;
 		if (spec[spec.size() - 1] == 'z') noend = true;
@@ -605,6 +630,7 @@ static Str frameStream(const Str& head, const Str& body, const Str& fr)
 		if (n > body.size() - pos) n = body.size() - pos;
 		char b[32];
 		snprintf(b, sizeof b, upper ? "%zX" : "%zx", n);
+		for (int z = (int)strlen(b); z < pad; z++) out += '0';
 		out += b;
 		if (ext) out += ";a=b";
 		out += "\r\n";
@@ -1224,10 +1250,11 @@ static Str dlCheck(DlClient* c, int code, const Str& cl, const Str& cr, const St
 	size_t n = c->sh->sizes[(size_t)c->file];
 	int wantCode; Str wantCl, wantCr; long long from = 0, len = (long long)n;
 	if (c->b < 0) { wantCode = 200; wantCl = str((long long)n); }
-	else if (c->b <= c->e && c->e < (long long)n) {
-		wantCode = 206; from = c->b; len = c->e - c->b + 1;
+	else if (c->b <= c->e && c->b < (long long)n) { // RFC 7233 2.1: a last position at or past the end means "to the end"
+		long long e = c->e < (long long)n ? c->e : (long long)n - 1;
+		wantCode = 206; from = c->b; len = e - c->b + 1;
 		wantCl = str(len);
-		wantCr = "bytes " + str(c->b) + "-" + str(c->e) + "/" + str((long long)n);
+		wantCr = "bytes " + str(c->b) + "-" + str(e) + "/" + str((long long)n);
 	}
 	else { wantCode = 416; len = 0; wantCl = "0"; wantCr = "bytes */" + str((long long)n); }
 	if (code != wantCode) return "status " + str(code) + " want " + str(wantCode);
